@@ -20,3 +20,9 @@ def hop_distance_routines_agree(G):
 def path_from_floyd(adjacency, s, t):
     SPL, hops, Pmat = distance_wei_floyd(adjacency, None)
     return retrieve_shortest_path(s, t, hops, Pmat)
+
+
+def efficiencies_agree_on_binary(G):
+    Ew = efficiency_wei(G, False)
+    Eb = efficiency_bin(G, False)
+    return Ew, Eb
